@@ -28,11 +28,11 @@ StateVals == {"st1"}
 NonceVals == {"n1", ""}
 
 RightCred(c) ==
-  IF c \notin Clients THEN [kind |-> "basic", secret |-> "right", key |-> "none"]
-  ELSE CASE Reg[c].auth = "none"  -> [kind |-> "none", secret |-> "none", key |-> "none"]
-         [] Reg[c].auth = "pkjwt" -> [kind |-> "assertion", secret |-> "none", key |-> "own"]
-         [] Reg[c].auth = "post"  -> [kind |-> "post", secret |-> "right", key |-> "none"]
-         [] OTHER                 -> [kind |-> "basic", secret |-> "right", key |-> "none"]
+  IF c \notin Clients THEN [kind |-> "basic", secret |-> "right", key |-> "none", alias |-> ""]
+  ELSE CASE Reg[c].auth = "none"  -> [kind |-> "none", secret |-> "none", key |-> "none", alias |-> ""]
+         [] Reg[c].auth = "pkjwt" -> [kind |-> "assertion", secret |-> "none", key |-> "own", alias |-> ""]
+         [] Reg[c].auth = "post"  -> [kind |-> "post", secret |-> "right", key |-> "none", alias |-> ""]
+         [] OTHER                 -> [kind |-> "basic", secret |-> "right", key |-> "none", alias |-> ""]
 
 -----------------------------------------------------------------------------
 (* Client authentication as the code performs it.  Result: "ok" or an error. *)
@@ -275,7 +275,7 @@ DecidePoll(a) ==
     IF ~cfg.dev THEN TokErr("unsupported_grant_type")
     ELSE IF ra[1] # "ok" THEN TokErr(ra[1])
     ELSE IF st # "tokens" THEN TokErr(st)
-    ELSE IF ra[2] # (Reg[a.caller].app = "web") THEN TokErr("invalid_client")
+    ELSE IF ra[2] # (Reg[a.caller].auth # "none") THEN TokErr("invalid_client")
     ELSE DeviceTokens(devs[a.dc])
   ELSE
     LET auth == TokenClientAuth(a.caller, a.cred)
@@ -431,7 +431,7 @@ TokArgs == LET ids == DOMAIN toks \cup {"a0"} IN
   IF Narrow THEN [form : TokForms, id : ids] ELSE [form : {"issued", "flipBody", "garbage"}, id : ids]
 
 CallerCreds == IF Narrow THEN {<<c, RightCred(c)>> : c \in Callers} \cup {<<"cw", cr>> : cr \in Creds} \cup {<<"cx", cr>> : cr \in Creds}
-                           \cup {<<"cj", cr>> : cr \in Creds} \cup {<<"cp", cr>> : cr \in Creds}
+                           \cup {<<"cj", cr>> : cr \in Creds} \cup {<<"cp", cr>> : cr \in Creds} \cup {<<"cn", cr>> : cr \in Creds}
                ELSE {"cw", "cx", "cp", "cz"} \X Creds
 
 IntrospectArgs == {[caller |-> cc[1], cred |-> cc[2], tok |-> t] : cc \in CallerCreds, t \in TokArgs}
@@ -468,7 +468,7 @@ TokenExchangeArgs ==
             \cup Deviations([right(sr) EXCEPT !.requested = "id"], [actor |-> good, subj |-> good])
             \cup Deviations([right(sr) EXCEPT !.requested = "refresh"], [actor |-> good, subj |-> good])
             \cup Deviations([right(sr) EXCEPT !.requested = ""], [actor |-> good, subj |-> good])
-  ELSE [caller : {"cw", "cx", "cz"}, cred : {RightCred("cw"), [kind |-> "basic", secret |-> "wrong", key |-> "none"]},
+  ELSE [caller : {"cw", "cx", "cz"}, cred : {RightCred("cw"), [kind |-> "basic", secret |-> "wrong", key |-> "none", alias |-> ""]},
         subj : {r \in R.refs : r.form \in {"issued", "valid", "expired", "flipBody"}},
         actor : {R.none} \cup {r \in R.refs : r.form \in {"issued", "valid"} /\ r.declared = r.kind /\ r.id \notin {"a0", "f0"}},
         requested : {"", "access", "refresh", "id", "jwt"}, scopes : {<<"openid", "email">>}]
